@@ -90,6 +90,10 @@ void run(Rng & rng, int n, const char * gname)
     ++REP->evaluations;
     ++REP->strata[std::string(gname) + ":K" + std::to_string(K) + ":" + strat];
     typename G::Tangent vel, acc, jer;
+    // NaN pre-fill: an output the library leaves unwritten is then visible
+    vel.setConstant(std::numeric_limits<typename G::Scalar>::quiet_NaN());
+    acc = vel;
+    jer = vel;
     G g = smooth::cspline_eval_vs<K, G>(vs, Bd, u, vel, acc, jer);
     // finite-difference oracle needs interior points: use one-sided-safe u in [0,1]; the oracle is polynomial in u so
     // evaluating slightly outside [0,1] is fine
